@@ -449,8 +449,12 @@ func (i *insertExecutor) getPkValuesByColumn(ctx context.Context, execCtx *types
 				continue
 			}
 		}
-		// a listed key value of NULL or 0 makes the database generate the key: those rows carry the generated
-		// values (LastInsertId is the first, the others follow with the step auto_increment_increment)
+		// a listed key value of NULL or 0 makes the database generate the key - in an AUTO_INCREMENT column only
+		// (anywhere else 0 is an ordinary key value): those rows carry the generated values (LastInsertId is the
+		// first, the others follow with the step auto_increment_increment)
+		if !isAutoIncrementColumn(meta, name) {
+			continue
+		}
 		generated := 0
 		for _, value := range tmpV {
 			if isGeneratedKeyValue(value) {
@@ -597,6 +601,17 @@ func (i *insertExecutor) autoGeneratePks(execCtx *types.ExecContext, autoColumnN
 	pkValuesMap := make(map[string][]interface{})
 	pkValuesMap[autoColumnName] = pkValues
 	return pkValuesMap, nil
+}
+
+// isAutoIncrementColumn tells whether the named column of the table is AUTO_INCREMENT (names compared case-insensitively)
+func isAutoIncrementColumn(meta *types.TableMeta, name string) bool {
+	name = DelEscape(name, types.DBTypeMySQL)
+	for columnName, column := range meta.Columns {
+		if strings.EqualFold(columnName, name) || strings.EqualFold(column.ColumnName, name) {
+			return column.Autoincrement
+		}
+	}
+	return false
 }
 
 // isGeneratedKeyValue: NULL and 0 in an AUTO_INCREMENT column mean "generate" (unless NO_AUTO_VALUE_ON_ZERO is set)
